@@ -1,4 +1,5 @@
 import OVM.Refine.Len
+import OVM.Refine.TransportHistory
 import OVM.Props.C17
 /-
   C03 — property values stay attached to their entities through every renumbering.
@@ -190,5 +191,262 @@ example :
 
 example : (({ key := "x", dflt := 0, vals := [10, 11, 20, 21, 30, 31] } : Col).erase 3 |>.erase 2).vals = [10, 11, 30, 31] ∧
     (({ key := "x", dflt := 7, vals := [1] } : Col).resize 3).vals = [1, 7, 7] := by decide
+
+/-! ─────────────────────────────────────────────────────────────────────────────────────────────
+  ## History-level transport (values stay attached to their *entities*)
+
+  Entity identity across renumberings is carried by a **token column**: a column `id` of the kind
+  whose non-default values are pairwise distinct (`TokCol`).  The theorems below say that every
+  other column of that kind follows the tokens through every history, that fresh slots hold the
+  defaults, and that halfedge / halfface values travel with their edge / face on their own side.
+  They rest on `Refine/Transport.lean`: every kernel operation transforms all columns of a kind by
+  one slot program (`resize / erase / swap`) that is computed from topology, flags and modes and
+  never from what a storage holds.
+  ───────────────────────────────────────────────────────────────────────────────────────────── -/
+section Transport
+open OVM.SlotOp
+
+/-- **(A) uniformity and naturality of every operation.**  For every operation and state there is,
+    per entity kind, one transformation `transOf κ k op : old values → default → new values` such
+    that *every* column of the kind is transformed by it; it commutes with every renaming `g` of
+    the values (so it can only move, drop and default-fill slots, never inspect them); mesh columns
+    are untouched; halfedge/halfface columns get the doubled edge/face program. -/
+theorem every_operation_is_uniform_and_natural (k : Kernel) (op : Op) :
+    (∀ κ, (k.step op).1.props.get κ =
+        (k.props.get κ).map (fun c => { c with vals := transOf κ k op c.vals c.dflt })) ∧
+    (∀ κ (g : Int → Int) vals d, transOf κ k op (vals.map g) (g d) = (transOf κ k op vals d).map g) ∧
+    (k.step op).1.props.m = k.props.m ∧
+    (progOf k op).get .he = dblL ((progOf k op).get .e) ∧ (progOf k op).get .hf = dblL ((progOf k op).get .f) :=
+  ⟨step_cols k op, fun κ g vals d => transOf_natural κ k op g vals d, step_m k op, rfl, rfl⟩
+
+/-- **no operation reads a storage**: on the same mesh with arbitrary other storages `p` the
+    operation yields the same mesh, the same return value and the same column transformations;
+    the new storages are the old ones run through the programs of `op`. -/
+theorem operations_never_read_storages (k : Kernel) (p : Props) (op : Op) :
+    (k.withP p).step op = ((k.step op).1.withP ((progOf k op).apply p), (k.step op).2) ∧
+    (∀ κ, transOf κ (k.withP p) op = transOf κ k op) :=
+  ⟨step_withP k p op, fun κ => transOf_withP κ k p op⟩
+
+/-- **one slot map serves every column of a kind, over every history** (any start state, any
+    arguments): the result column is read off the old one through `slotsOf κ k ops n`, which
+    names for every result slot its source slot or `none` (= created on the way, default). -/
+theorem one_slot_map_serves_all_columns (k : Kernel) (ops : List Op) (κ : Kind) (i : Nat) (c : Col)
+    (h : (k.props.get κ)[i]? = some c) :
+    ((k.run ops).props.get κ)[i]? =
+      some { c with vals := (slotsOf κ k ops c.vals.length).map (pick c.vals c.dflt) } :=
+  run_col_slots k ops κ i c h
+
+/-- **the pair list of two columns of a kind is transported as one column** (the zip corollary):
+    positions of the two columns can never drift apart. -/
+theorem paired_columns_transform_together (k : Kernel) (ops : List Op) (κ : Kind) (ia ib : Nat) (a b : Col)
+    (ha : (k.props.get κ)[ia]? = some a) (hb : (k.props.get κ)[ib]? = some b)
+    (hl : a.vals.length = b.vals.length) :
+    ∃ a' b', ((k.run ops).props.get κ)[ia]? = some a' ∧ ((k.run ops).props.get κ)[ib]? = some b' ∧
+      a'.vals.zip b'.vals = runL ((progRun k ops).get κ) (a.vals.zip b.vals) (a.dflt, b.dflt) :=
+  ⟨_, _, run_col_at k ops κ ia a ha, run_col_at k ops κ ib b hb, (runL_zip _ _ _ _ _ hl).symm⟩
+
+/-- **token theorem, any start state** — only needs the two columns to have equally many slots.
+    `id` holds pairwise distinct non-default tokens.  After any history: the columns are still at
+    their positions with key and default unchanged; tokens are still pairwise distinct; wherever
+    the token column shows an old token `t`, the other column shows the value that stood next to `t`
+    before; every token is an old one or the default. -/
+theorem values_follow_tokens_from (k : Kernel) (ops : List Op) (κ : Kind) (ia ib : Nat) (id c : Col)
+    (ha : (k.props.get κ)[ia]? = some id) (hb : (k.props.get κ)[ib]? = some c)
+    (hl : id.vals.length = c.vals.length) (htok : TokCol id.vals id.dflt) :
+    ∃ id' c', ((k.run ops).props.get κ)[ia]? = some id' ∧ ((k.run ops).props.get κ)[ib]? = some c' ∧
+      id'.key = id.key ∧ id'.dflt = id.dflt ∧ c'.key = c.key ∧ c'.dflt = c.dflt ∧
+      id'.vals.length = c'.vals.length ∧ TokCol id'.vals id'.dflt ∧
+      (∀ (i j : Nat) (t : Int), id'.vals[i]? = some t → t ≠ id.dflt → id.vals[j]? = some t →
+          c'.vals[i]? = c.vals[j]?) ∧
+      (∀ (i : Nat) (t : Int), id'.vals[i]? = some t → t = id.dflt ∨ t ∈ id.vals) ∧
+      (id.dflt ∉ id.vals → ∀ (i : Nat), id'.vals[i]? = some id.dflt → c'.vals[i]? = some c.dflt) := by
+  have T := token_transport ((progRun k ops).get κ) id.vals id.dflt c.vals c.dflt hl htok
+  exact ⟨_, _, run_col_at k ops κ ia id ha, run_col_at k ops κ ib c hb, rfl, rfl, rfl, rfl, T.1, T.2.1, T.2.2.1,
+    T.2.2.2.1, T.2.2.2.2⟩
+
+/-- **values stay attached to their entities, over every history** (C03 at the level of histories).
+    From a state with one slot per entity (`LenInv`, e.g. the empty mesh or a loaded one) and any
+    in-range history — construction, `set_*`, deletion in all four modes, index swaps, garbage
+    collection, mode and incidence toggles, `clear` — every column `c` of a kind follows a token
+    column `id` of that kind: both keep key and default, both have exactly one slot per entity slot
+    of the result, and at every slot whose token `t` already existed, `c` holds what it held next
+    to `t` before. -/
+theorem values_follow_tokens_history (k : Kernel) (hi : LenInv k) (ops : List Op) (hr : HistoryInRange k ops)
+    (κ : Kind) (ia ib : Nat) (id c : Col)
+    (ha : (k.props.get κ)[ia]? = some id) (hb : (k.props.get κ)[ib]? = some c)
+    (htok : TokCol id.vals id.dflt) :
+    ∃ id' c', ((k.run ops).props.get κ)[ia]? = some id' ∧ ((k.run ops).props.get κ)[ib]? = some c' ∧
+      id'.key = id.key ∧ id'.dflt = id.dflt ∧ c'.key = c.key ∧ c'.dflt = c.dflt ∧
+      id'.vals.length = (k.run ops).count κ ∧ c'.vals.length = (k.run ops).count κ ∧
+      TokCol id'.vals id'.dflt ∧
+      (∀ (i j : Nat) (t : Int), id'.vals[i]? = some t → t ≠ id.dflt → id.vals[j]? = some t →
+          c'.vals[i]? = c.vals[j]?) ∧
+      (∀ (i : Nat) (t : Int), id'.vals[i]? = some t → t = id.dflt ∨ t ∈ id.vals) := by
+  have hla : id.vals.length = k.count κ := (LenInv.cols k hi κ) id (List.mem_of_getElem? ha)
+  have hlb : c.vals.length = k.count κ := (LenInv.cols k hi κ) c (List.mem_of_getElem? hb)
+  obtain ⟨id', c', h1, h2, h3, h4, h5, h6, _, h8, h9, h10, _⟩ :=
+    values_follow_tokens_from k ops κ ia ib id c ha hb (hla.trans hlb.symm) htok
+  have hi' := LenInv.cols _ (lenInv_run k ops hi hr) κ
+  exact ⟨id', c', h1, h2, h3, h4, h5, h6, hi' id' (List.mem_of_getElem? h1), hi' c' (List.mem_of_getElem? h2),
+    h8, h9, h10⟩
+
+/-- **new entities start with the default value.**  If all tokens of the start state are
+    non-default, a slot of the result whose token is the default is a slot created during the
+    history, and *every* column of the kind holds its own default there. -/
+theorem new_entities_get_defaults (k : Kernel) (hi : LenInv k) (ops : List Op) (κ : Kind) (ia ib : Nat) (id c : Col)
+    (ha : (k.props.get κ)[ia]? = some id) (hb : (k.props.get κ)[ib]? = some c)
+    (htok : TokCol id.vals id.dflt) (hnd : id.dflt ∉ id.vals) :
+    ∃ id' c', ((k.run ops).props.get κ)[ia]? = some id' ∧ ((k.run ops).props.get κ)[ib]? = some c' ∧
+      c'.dflt = c.dflt ∧
+      ∀ (i : Nat), id'.vals[i]? = some id.dflt → c'.vals[i]? = some c.dflt := by
+  have hla : id.vals.length = k.count κ := (LenInv.cols k hi κ) id (List.mem_of_getElem? ha)
+  have hlb : c.vals.length = k.count κ := (LenInv.cols k hi κ) c (List.mem_of_getElem? hb)
+  obtain ⟨id', c', h1, h2, _, _, _, h6, _, _, _, _, h11⟩ :=
+    values_follow_tokens_from k ops κ ia ib id c ha hb (hla.trans hlb.symm) htok
+  exact ⟨id', c', h1, h2, h6, h11 hnd⟩
+
+/-- in a state with one slot per entity every half-entity column has two slots per parent slot
+    (the length hypothesis of the two theorems below) -/
+theorem half_columns_have_two_slots_per_parent (k : Kernel) (hi : LenInv k) (κ κh : Kind)
+    (hk : (κ = .e ∧ κh = .he) ∨ (κ = .f ∧ κh = .hf)) (E H : Col)
+    (he : E ∈ k.props.get κ) (hh : H ∈ k.props.get κh) : H.vals.length = 2 * E.vals.length := by
+  rcases hk with ⟨rfl, rfl⟩ | ⟨rfl, rfl⟩
+  · rw [hi.phe H hh, hi.pe E he]; rfl
+  · rw [hi.phf H hh, hi.pf E he]; rfl
+
+/-- **halfedge / halfface values stay on their side of their edge / face, over every history**
+    (any start state in which the half-entity column has two slots per parent slot, any arguments).
+    `κ, κh` is (edge, halfedge) or (face, halfface); `E` is any column of the parent kind, `H` any
+    column of the half kind.  After the history every parent slot `i` of the result either is an
+    old parent slot `j` — then `E` shows the value of `j` and `H` shows at `2i` and `2i+1` what it
+    showed at `2j` and `2j+1`, sides not exchanged — or is a new slot with the defaults everywhere. -/
+theorem halfentity_sides_follow_edges_history (k : Kernel) (ops : List Op) (κ κh : Kind)
+    (hk : (κ = .e ∧ κh = .he) ∨ (κ = .f ∧ κh = .hf)) (ie ih : Nat) (E H : Col)
+    (he : (k.props.get κ)[ie]? = some E) (hh : (k.props.get κh)[ih]? = some H)
+    (hl : H.vals.length = 2 * E.vals.length) :
+    ∃ E' H', ((k.run ops).props.get κ)[ie]? = some E' ∧ ((k.run ops).props.get κh)[ih]? = some H' ∧
+      E'.dflt = E.dflt ∧ H'.dflt = H.dflt ∧ H'.vals.length = 2 * E'.vals.length ∧
+      ∀ (i : Nat), i < E'.vals.length →
+        (∃ j, j < E.vals.length ∧ E'.vals[i]? = E.vals[j]? ∧
+            H'.vals[2 * i]? = H.vals[2 * j]? ∧ H'.vals[2 * i + 1]? = H.vals[2 * j + 1]?) ∨
+        (E'.vals[i]? = some E.dflt ∧ H'.vals[2 * i]? = some H.dflt ∧ H'.vals[2 * i + 1]? = some H.dflt) := by
+  have hP : (progRun k ops).get κh = dblL ((progRun k ops).get κ) := by
+    rcases hk with ⟨rfl, rfl⟩ | ⟨rfl, rfl⟩ <;> rfl
+  have T := half_transport ((progRun k ops).get κ) E.vals E.dflt H.vals H.dflt hl
+  refine ⟨_, _, run_col_at k ops κ ie E he, run_col_at k ops κh ih H hh, rfl, rfl, ?_, ?_⟩
+  · simp only [Col.runP_vals, hP]; exact T.1
+  · simp only [Col.runP_vals, hP]; exact T.2
+
+/-- the same in token form: if the parent column `E` holds pairwise distinct non-default tokens,
+    then wherever `E` shows an old token `t` after the history, the half column shows on side `s`
+    what it showed on side `s` of the entity that carried `t`; in particular a half column that
+    held `2·t+s` next to token `t` still does.  Slots with a fresh token hold the default on both
+    sides (when no old token is the default). -/
+theorem halfentity_sides_follow_tokens_history (k : Kernel) (ops : List Op) (κ κh : Kind)
+    (hk : (κ = .e ∧ κh = .he) ∨ (κ = .f ∧ κh = .hf)) (ie ih : Nat) (E H : Col)
+    (he : (k.props.get κ)[ie]? = some E) (hh : (k.props.get κh)[ih]? = some H)
+    (hl : H.vals.length = 2 * E.vals.length) (htok : TokCol E.vals E.dflt) :
+    ∃ E' H', ((k.run ops).props.get κ)[ie]? = some E' ∧ ((k.run ops).props.get κh)[ih]? = some H' ∧
+      (∀ (i j s : Nat) (t : Int), s < 2 → E'.vals[i]? = some t → t ≠ E.dflt → E.vals[j]? = some t →
+          H'.vals[2 * i + s]? = H.vals[2 * j + s]?) ∧
+      ((∀ (j s : Nat) (t : Int), s < 2 → E.vals[j]? = some t → t ≠ E.dflt → H.vals[2 * j + s]? = some (2 * t + s)) →
+        ∀ (i s : Nat) (t : Int), s < 2 → E'.vals[i]? = some t → t ≠ E.dflt → H'.vals[2 * i + s]? = some (2 * t + s)) ∧
+      (E.dflt ∉ E.vals → ∀ (i s : Nat), s < 2 → E'.vals[i]? = some E.dflt → H'.vals[2 * i + s]? = some H.dflt) := by
+  have hP : (progRun k ops).get κh = dblL ((progRun k ops).get κ) := by
+    rcases hk with ⟨rfl, rfl⟩ | ⟨rfl, rfl⟩ <;> rfl
+  have T := half_token_transport ((progRun k ops).get κ) E.vals E.dflt H.vals H.dflt hl htok
+  have M := mem_runL ((progRun k ops).get κ) E.vals E.dflt
+  refine ⟨_, _, run_col_at k ops κ ie E he, run_col_at k ops κh ih H hh, ?_, ?_, ?_⟩
+  · simp only [Col.runP_vals, hP]; exact T.1
+  · simp only [Col.runP_vals, hP]
+    intro hrel i s t hs hi ht
+    rcases M t (List.mem_of_getElem? hi) with hm | hm
+    · obtain ⟨j, hj, hjt⟩ := List.mem_iff_getElem.mp hm
+      have hj' : E.vals[j]? = some t := by rw [List.getElem?_eq_getElem hj, hjt]
+      rw [T.1 i j s t hs hi ht hj']
+      exact hrel j s t hs hj' ht
+    · exact absurd hm ht
+  · simp only [Col.runP_vals, hP]; exact T.2
+
+/-! ### non-vacuity: a state with a token column, a value column, edge and halfedge token columns;
+    a history with a fast immediate deletion (of a vertex and its edge), an index swap, a deferred
+    deletion, a construction and a garbage collection -/
+
+/-- vertices 0..3 with tokens 101..104 and values 7..10 (default −1); edges (0,1), (2,3), (0,2)
+    with tokens 201..203; halfedge tokens `2·t+s`; immediate fast deletion mode, no incidences -/
+def exK : Kernel :=
+  { nV := 4, vDel := [false, false, false, false], edges := [(0, 1), (2, 3), (0, 2)], eDel := [false, false, false],
+    vBU := false, eBU := false, fBU := false, deferred := false, fast := true,
+    props := { v := [{ key := "id", dflt := 0, vals := [101, 102, 103, 104] },
+                     { key := "val", dflt := -1, vals := [7, 8, 9, 10] }],
+               e := [{ key := "eid", dflt := 0, vals := [201, 202, 203] }],
+               he := [{ key := "hid", dflt := 0, vals := [402, 403, 404, 405, 406, 407] }] } }
+
+def exOps : List Op :=
+  [.deleteVertex 1, .swapVertex 0 1, .enableDeferred true, .deleteVertex 0, .addVertex, .collectGarbage]
+
+theorem exK_lenInv : LenInv exK := by
+  constructor <;> simp [exK, nE, nF, nC, nHE, nHF, ColsLen]
+
+theorem exOps_inRange : HistoryInRange exK exOps := by
+  unfold exOps
+  simp only [HistoryInRange, OpInRange]
+  decide
+
+/-- the hypotheses of `values_follow_tokens_history` / `new_entities_get_defaults` hold for the
+    example (vertex kind, token column 0, value column 1), so their conclusions do -/
+example :
+    ∃ id' c', ((exK.run exOps).props.get .v)[0]? = some id' ∧ ((exK.run exOps).props.get .v)[1]? = some c' ∧
+      id'.vals.length = (exK.run exOps).count .v ∧
+      (∀ (i j : Nat) (t : Int), id'.vals[i]? = some t → t ≠ 0 → [101, 102, 103, 104][j]? = some t →
+          c'.vals[i]? = [7, 8, 9, 10][j]?) ∧
+      (∀ (i : Nat), id'.vals[i]? = some 0 → c'.vals[i]? = some (-1)) := by
+  have htok : TokCol [101, 102, 103, 104] (0 : Int) := tokCol_of_nodup _ _ (by decide)
+  obtain ⟨id', c', h1, h2, _, _, _, _, h7, _, _, h10, _⟩ :=
+    values_follow_tokens_history exK exK_lenInv exOps exOps_inRange .v 0 1 _ _ rfl rfl htok
+  obtain ⟨id'', c'', g1, g2, _, g4⟩ :=
+    new_entities_get_defaults exK exK_lenInv exOps .v 0 1 _ _ rfl rfl htok (by decide)
+  rw [h1] at g1; rw [h2] at g2
+  cases g1; cases g2
+  exact ⟨id', c', h1, h2, h7, h10, g4⟩
+
+/-- test (evaluation of the model on the example): vertex 102 and its edge were deleted fast,
+    vertex 104 deferred and collected; the survivors 101, 103 moved and kept 7, 9; the new vertex
+    has token 0 and value −1; edge 203 moved from slot 2 to slot 0 with 406 on side 0, 407 on side 1 -/
+example :
+    (exK.run exOps).props.v = [{ key := "id", dflt := 0, vals := [0, 101, 103] }, { key := "val", dflt := -1, vals := [-1, 7, 9] }] ∧
+    (exK.run exOps).props.e = [{ key := "eid", dflt := 0, vals := [203] }] ∧
+    (exK.run exOps).props.he = [{ key := "hid", dflt := 0, vals := [406, 407] }] ∧
+    (progRun exK exOps).v = [.swap 1 3, .erase 3, .swap 0 1, .resize 4, .swap 0 3, .erase 3] ∧
+    slotsOf .v exK exOps 4 = [none, some 0, some 2] := by decide
+
+/-- the hypotheses of the half-entity theorems hold for the example (edge tokens, halfedge tokens) -/
+example :
+    ∃ E' H', ((exK.run exOps).props.get .e)[0]? = some E' ∧ ((exK.run exOps).props.get .he)[0]? = some H' ∧
+      H'.vals.length = 2 * E'.vals.length ∧
+      (∀ (i s : Nat) (t : Int), s < 2 → E'.vals[i]? = some t → t ≠ 0 → H'.vals[2 * i + s]? = some (2 * t + s)) := by
+  obtain ⟨E', H', h1, h2, _, _, h5, _⟩ :=
+    halfentity_sides_follow_edges_history exK exOps .e .he (Or.inl ⟨rfl, rfl⟩) 0 0 _ _ rfl rfl (by decide)
+  obtain ⟨E'', H'', g1, g2, _, g4, _⟩ :=
+    halfentity_sides_follow_tokens_history exK exOps .e .he (Or.inl ⟨rfl, rfl⟩) 0 0 _ _ rfl rfl (by decide)
+      (tokCol_of_nodup _ _ (by decide))
+  rw [h1] at g1; rw [h2] at g2
+  cases g1; cases g2
+  refine ⟨E', H', h1, h2, h5, g4 ?_⟩
+  intro j s t hs hj ht
+  have hj3 : j < 3 := by
+    have := lt_of_getElem?_eq_some hj; simpa [exK] using this
+  have hs' : s = 0 ∨ s = 1 := by omega
+  have hj' : j = 0 ∨ j = 1 ∨ j = 2 := by omega
+  rcases hj' with rfl | rfl | rfl <;> rcases hs' with rfl | rfl <;>
+    (simp at hj; subst hj; simp)
+
+/-- an operation applies the *same* transformation to both vertex columns of the example, and it
+    commutes with renaming the values (instance of `every_operation_is_uniform_and_natural`) -/
+example : transOf .v exK (.deleteVertex 1) [7, 8, 9, 10] (-1) = [7, 10, 9] ∧
+    transOf .v exK (.deleteVertex 1) [101, 102, 103, 104] 0 = [101, 104, 103] ∧
+    transOf .he exK (.deleteVertex 1) [402, 403, 404, 405, 406, 407] 0 = [406, 407, 404, 405] := by decide
+
+end Transport
 
 end OVM.Props.C03
